@@ -10,6 +10,21 @@ CLAIMS={
    note="Trusted: go/ssa as the semantics of the source, gvc's translation (guarded by the must-fail selftest corpus), the SMT solvers, uint = 64 bits, package variables masks/powersOfTwo have the values their initialiser stores (checked: no other store in the package).",
    technique="contract-based deductive verification: WP/symbolic execution over go/ssa with full loop unrolling + unwinding assertion, QF_BV obligations discharged by z3/cvc5; counterexamples replayed on the real code via go test -overlay",
    design="5 (C17)"),
+ "C09": dict(
+   text="Contracts on InsertPoint, InsertCoord, insertCoord and InsertPolygon state, from the property text: a point is accepted exactly when its integer representation lies in the half-open grid [min, min + 2^level*res) on both axes; InsertPolygon returns nil exactly when every vertex of every ring does (quantified loop invariants over rings and vertices), otherwise an OutsideGridError, and a rejected point leaves the index unchanged. Every obligation (postconditions, loop invariants, frame, overflow, bounds) generated from the SSA is discharged for all inputs. The defect F2 (a vertex less than one pixel left of / below the grid was accepted) was found as a failing postcondition, replayed on the real code and repaired.",
+   note="Trusted: go/ssa semantics and gvc's translation, the SMT solvers; float64 and the conversion x*1e10 -> int64 over the reals with |ordinate| < 8e8 units; well-formed index (level <= 32, magnitudes below 2^60) as precondition. Not decided: the panic / empty-result branch of SnapPolygon itself (SnapPolygon is not under contract yet).",
+   technique="contract-based deductive verification: VCs from go/ssa with loops cut at quantified invariants, mathematical integers with discharged overflow obligations, z3/cvc5; counterexamples replayed via go test -overlay",
+   design="5 (C09)"),
+ "C02": dict(
+   text="The pixel test is proved exact: lineIntersects(l, e) == exists t in [0,1]: l(t) in the half-open pixel e, for all integer segments and pixels (witness for the positive answer, arbitrary t for the negative one, int64 relaxed to reals; cmpFrac proved over the integers with 128-bit products). findIntersectingQuadrants is proved to return exactly the occupied children of a parent pixel whose half-open square the closed edge meets, without duplicates, from eight geometric lemmas that are themselves proved from the definition of meets. The defect F1 (ties decided wrongly in both directions) was demonstrated on the real code and repaired by an exact integer clipping.",
+   note="Trusted: go/ssa semantics and gvc's translation, the SMT solvers (nonlinear real arithmetic: effectively the two z3 versions), bits.Mul64 contract, the two defining axioms of meets (skolemised exists). NOT decided by this check (stated in the evidence): the level-by-level descent of snapClosestPoints, the order of travel of the returned centres, and the second sentence of the property (concatenation of routed edges). A bounded lattice cross-check of the specification runs as an extra and is not counted as proved.",
+   technique="contract-based deductive verification: VCs from go/ssa, existential specification handled by witnesses and skolemisation, opaque predicate + proved lemma instances, z3/cvc5",
+   design="5 (C02)"),
+ "C14": dict(
+   text="IsQuadTree is proved (quantified loop invariant over the sorted key list, assumed contracts for maps.Keys / slices.Sort with ghost position functions) to return nil only if every tile matrix is square with square tiles, carries its key as id and no variable widths, and every consecutive pair of the sorted keys differs by one and satisfies same origin, same corner, same tile size, doubled matrix and cell-size ratio within [1.99, 2.01]; so breaking any of these at any level, including the last, is rejected. validateTileMatrixSet is proved to return nil only if IsQuadTree does and matrix 0 exists, and to be panic-free through contracts on DeviationStats, FromTileMatrixSet, MatrixBoundingBox, MatrixSize and ToXYPoint. Two defects were found and repaired: F7 (validation panicked on variable widths) and F8 (an empty variableMatrixWidths list passed IsQuadTree and then panicked).",
+   note="Trusted: go/ssa semantics and gvc's translation, SMT solvers, float64 as reals, strconv.Atoi as an uninterpreted function, IsLatLon/axisOrderIsLatLon/PrintWithDecimals as trusted (no panic, deterministic), decoder invariants (origin present, cell size > 0), magnitudes of matrix 0 (macro indexableIf0). The relation pixel size = cell size / 16, root 1x1 and power-of-two tiles are NOT enforced by the code; for the 14 built-in documents they are checked on the data by an exhaustive enumeration labelled exhaustive-data, not proof.",
+   technique="contract-based deductive verification: VCs from go/ssa with quantified invariants and ghost functions for library contracts, z3/cvc5; plus a complete enumeration of the embedded documents on the real code (labelled)",
+   design="5 (C14)"),
 }
 NA={
  # filled below for every property that is not claimed
